@@ -702,6 +702,36 @@ theorem Inv.infRemove {x : Option Nat} {v : View} (hi : Inv x v) (id : Nat) :
       obtain ⟨a, b, c⟩ := hi.canCall id' tr hm
       exact ⟨a, fun e he => b e (hsub e he), c⟩ }
 
+/-- Re-keying entries (a re-armed deadline timer: new `timerKey`, smaller `remainder`) changes nothing the invariant
+reads: `id`, `cid` and `ctx` stay. -/
+theorem Inv.infMap {x : Option Nat} {v : View} (hi : Inv x v) (f : Entry → Entry)
+    (hf : ∀ e, (f e).id = e.id ∧ (f e).cid = e.cid ∧ (f e).ctx = e.ctx) :
+    Inv x { v with inflight := v.inflight.map f } := by
+  have hback : ∀ e' ∈ v.inflight.map f, ∃ e ∈ v.inflight, e' = f e := fun e' he' => by
+    obtain ⟨e, he, rfl⟩ := List.mem_map.mp he'; exact ⟨e, he, rfl⟩
+  have hids : (v.inflight.map f).map (·.id) = v.inflight.map (·.id) := by
+    rw [List.map_map]; apply List.map_congr_left; intro e _; exact (hf e).1
+  exact { hi with
+    inf := fun e' he' => by
+      obtain ⟨e, he, rfl⟩ := hback e' he'
+      rw [(hf e).1, (hf e).2.1, (hf e).2.2]; exact hi.inf e he
+    infNodup := by show ((v.inflight.map f).map (·.id)).Nodup; rw [hids]; exact hi.infNodup
+    disj := fun r hr e' he' => by
+      obtain ⟨e, he, rfl⟩ := hback e' he'
+      rw [(hf e).1]; exact hi.disj r hr e he
+    infSent := fun hp e' he' hx => by
+      obtain ⟨e, he, rfl⟩ := hback e' he'
+      rw [(hf e).1] at hx ⊢; exact hi.infSent hp e he hx
+    canCall := fun id' tr hm => by
+      obtain ⟨a, b, c⟩ := hi.canCall id' tr hm
+      refine ⟨a, fun e' he' => ?_, c⟩
+      obtain ⟨e, he, rfl⟩ := hback e' he'
+      rw [(hf e).1]; exact b e he }
+
+theorem rearmEntry_same (id key t : Nat) (e : Entry) :
+    (rearmEntry id key t e).id = e.id ∧ (rearmEntry id key t e).cid = e.cid ∧ (rearmEntry id key t e).ctx = e.ctx := by
+  unfold rearmEntry; split <;> exact ⟨rfl, rfl, rfl⟩
+
 /-- the pending write is no longer owed: the dispatch panicked, or the entry is gone -/
 theorem Inv.drop_x {v : View} {id : Nat} (hi : Inv (some id) v)
     (h : v.poisoned = true ∨ ∀ e ∈ v.inflight, e.id ≠ id) : Inv none v :=
@@ -730,8 +760,8 @@ theorem Inv.pqClear {x : Option Nat} {v : View} (hi : Inv x v) : Inv x { v with 
     pqNotSent := fun _ h => by simp at h }
 
 theorem Inv.infInsert {v : View} (hi : Inv none v) {r : DReq} (hd : Deq v r)
-    (hnc : ∃ c, v.get r.cid = some c ∧ c.rxClosed = false) (key : Nat) :
-    Inv (some r.id) { v with inflight := v.inflight ++ [{ id := r.id, cid := r.cid, ctx := r.ctx, timerKey := key }] } := by
+    (hnc : ∃ c, v.get r.cid = some c ∧ c.rxClosed = false) (key rem : Nat) :
+    Inv (some r.id) { v with inflight := v.inflight ++ [{ id := r.id, cid := r.cid, ctx := r.ctx, timerKey := key, remainder := rem }] } := by
   obtain ⟨c, hc, a1, a2, a3, a4, a5, a6, a7⟩ := hd.call
   exact { hi with
     inf := fun e he => by
